@@ -380,7 +380,14 @@ impl<'de, R: Reader<'de>> Deserializer<R> {
                 // repr the invalid utf8, not need to care about the invalid UTF8 char in non-string
                 // parts, it will cause errors when parsing.
                 let repr = String::from_utf8_lossy(json);
-                (val.parse_with_padding(repr.as_bytes(), cfg)?, repr.len())
+                // positions in the (longer) lossy copy are mapped back to the input
+                match val.parse_with_padding(repr.as_bytes(), cfg) {
+                    Ok(n) => (lossy_origin_offset(json, n), json.len()),
+                    Err(err) => {
+                        let index = lossy_origin_offset(json, err.offset());
+                        return Err(Error::syntax(err.error_code(), json, index));
+                    }
+                }
             } else {
                 (val.parse_with_padding(json, cfg)?, json.len())
             };
@@ -392,6 +399,10 @@ impl<'de, R: Reader<'de>> Deserializer<R> {
             }
             if !cfg.utf8_lossy {
                 self.parser.check_invalid_utf8(false)?;
+            } else {
+                // what was replaced in this value is done with: look for the next invalid
+                // position after it
+                self.parser.check_invalid_utf8(true)?;
             }
         } else {
             let shared = unsafe {
@@ -921,6 +932,32 @@ impl<'de, 'a, R: Reader<'de>> de::Deserializer<'de> for &'a mut Deserializer<R> 
         tri!(self.parser.skip_one());
         tri!(self.parser.check_invalid_utf8(false));
         visitor.visit_unit()
+    }
+}
+
+/// The offset in `json` that corresponds to the offset `repr_off` in `String::from_utf8_lossy(json)`
+/// (every maximal invalid sequence became one 3-byte U+FFFD there); an offset inside a replacement
+/// character maps to the end of the invalid sequence.
+fn lossy_origin_offset(json: &[u8], repr_off: usize) -> usize {
+    let (mut origin, mut repr) = (0usize, 0usize);
+    let mut rest = json;
+    loop {
+        match std::str::from_utf8(rest) {
+            Ok(s) => return origin + (repr_off - repr).min(s.len()),
+            Err(e) => {
+                let valid = e.valid_up_to();
+                if repr_off - repr <= valid {
+                    return origin + (repr_off - repr);
+                }
+                let bad = e.error_len().unwrap_or(rest.len() - valid);
+                if repr_off - repr <= valid + 3 {
+                    return origin + valid + bad;
+                }
+                origin += valid + bad;
+                repr += valid + 3;
+                rest = &rest[valid + bad..];
+            }
+        }
     }
 }
 
